@@ -362,3 +362,56 @@ pub fn run_drop() {
         println!("{}", r);
     });
 }
+
+/// Scheduling from inside the executor's own callbacks and futures (C10, C08): `<n> <depth>`.
+/// n ready tasks are scheduled; every completion callback schedules one more ready task until `depth` generations have run; the
+/// first task of every generation also schedules a task from inside its future. Output: delivered expected panicked
+fn run_resched_case(line: &str) -> String {
+    let ws: Vec<usize> = line.split_whitespace().filter_map(|w| w.parse().ok()).collect();
+    if ws.len() != 2 {
+        return "BAD".into();
+    }
+    let (n, depth) = (ws[0], ws[1]);
+    let delivered = std::rc::Rc::new(std::cell::Cell::new(0usize));
+    let mut event_loop: EventLoop<'static, ()> = EventLoop::try_new().expect("loop");
+    let (exec, scheduler) = executor::<usize>().expect("executor");
+    let sched2 = scheduler.clone();
+    let d2 = delivered.clone();
+    let _token = event_loop
+        .handle()
+        .insert_source(exec, move |gen, _, _| {
+            d2.set(d2.get() + 1);
+            if gen > 0 {
+                // schedule from inside the executor's own completion callback
+                let _ = sched2.schedule(async move { gen - 1 });
+            }
+        })
+        .expect("insert");
+    for i in 0..n {
+        let s3 = scheduler.clone();
+        let first = i == 0;
+        let _ = scheduler.schedule(async move {
+            if first {
+                // schedule from inside a running future
+                let _ = s3.schedule(async move { 0usize });
+            }
+            depth
+        });
+    }
+    let r = std::panic::catch_unwind(std::panic::AssertUnwindSafe(|| {
+        for _ in 0..(depth + 4) {
+            let _ = event_loop.dispatch(Some(Duration::ZERO), &mut ());
+        }
+    }));
+    let expected = n * (depth + 1) + if n > 0 { 1 } else { 0 };
+    let out = format!("{} {} {}", delivered.get(), expected, r.is_err() as u8);
+    std::mem::forget(event_loop);
+    out
+}
+
+pub fn run_resched() {
+    crate::for_each_line(|l| {
+        let r = std::panic::catch_unwind(|| run_resched_case(l)).unwrap_or_else(|_| "PANIC".to_string());
+        println!("{}", r);
+    });
+}
